@@ -738,4 +738,37 @@ theorem scan_word (c : Char) (cs : Str) (hc : c ∈ letters) (h : ∀ x ∈ cs, 
   | zero => simp at hlen
   | succ n => rw [scanAux, firstMatch_nil]
 
+
+/-! ## a simple class: dateTime literals `dddd-dd-ddTdd:dd:dd` are one DATETIME token -/
+
+theorem mTime_literal (a b c d e f : Char)
+    (ha : isDigit a = true) (hb : isDigit b = true) (hc : isDigit c = true) (hd : isDigit d = true)
+    (he : isDigit e = true) (hf : isDigit f = true) :
+    mTime [a, b, ':', c, d, ':', e, f] = some [] := by
+  simp [mTime, digitsN, lit, startsWith, optFrac, optTz, ha, hb, hc, hd, he, hf]
+
+/-- a dateTime literal without zone is exactly one DATETIME token -/
+theorem scan_datetime (y1 y2 y3 y4 m1 m2 d1 d2 h1 h2 n1 n2 s1 s2 : Char)
+    (hy1 : isDigit y1 = true) (hy2 : isDigit y2 = true) (hy3 : isDigit y3 = true) (hy4 : isDigit y4 = true)
+    (hm1 : isDigit m1 = true) (hm2 : isDigit m2 = true) (hd1 : isDigit d1 = true) (hd2 : isDigit d2 = true)
+    (hh1 : isDigit h1 = true) (hh2 : isDigit h2 = true) (hn1 : isDigit n1 = true) (hn2 : isDigit n2 = true)
+    (hs1 : isDigit s1 = true) (hs2 : isDigit s2 = true) :
+    scanWith pinnedRules [y1, y2, y3, y4, '-', m1, m2, '-', d1, d2, 'T', h1, h2, ':', n1, n2, ':', s1, s2] =
+      ([("DATETIME", [y1, y2, y3, y4, '-', m1, m2, '-', d1, d2, 'T', h1, h2, ':', n1, n2, ':', s1, s2])], []) := by
+  have hdm := mDate_literal y1 y2 y3 y4 m1 m2 d1 d2 hy1 hy2 hy3 hy4 hm1 hm2 hd1 hd2 ['T', h1, h2, ':', n1, n2, ':', s1, s2]
+  have htm := mTime_literal h1 h2 n1 n2 s1 s2 hh1 hh2 hn1 hn2 hs1 hs2
+  have hfm : firstMatch pinnedRules [y1, y2, y3, y4, '-', m1, m2, '-', d1, d2, 'T', h1, h2, ':', n1, n2, ':', s1, s2]
+      = some ("DATETIME", 19) := by
+    rw [pinnedRules_head2]
+    simp only [firstMatch, mDateTime, hdm, Option.bind_some]
+    have hl : lit ['T'] ['T', h1, h2, ':', n1, n2, ':', s1, s2] = some [h1, h2, ':', n1, n2, ':', s1, s2] := by
+      simp [lit, startsWith]
+    simp [hl, htm]
+  unfold scanWith
+  rw [scanAux, hfm]
+  simp only [List.length_cons, List.length_nil]
+  rw [scanAux, show List.drop 19 [y1, y2, y3, y4, '-', m1, m2, '-', d1, d2, 'T', h1, h2, ':', n1, n2, ':', s1, s2] = [] from rfl,
+    firstMatch_nil]
+  rfl
+
 end Pyxv.Lexer
